@@ -437,8 +437,20 @@ def semantic_tables(rep, repo, pf, table, T, mpval, effs, it):
                 return a.default if a is not None else None
             if t[0] == 'sym' and t[1] in ('PARSER',):
                 return 'PARSER'
+            if t == ARGS:
+                return 'ARGS'
             return NOATOM
-        pe = PyEval(atom)
+        def call(t, argv):
+            # getattr(args, <name>): the option value as parsed (dynamic reads see the values argparse delivered)
+            if t[1] == S('getattr') and len(argv) in (2, 3) and argv[0] == 'ARGS' and isinstance(argv[1], str):
+                return atom(A(ARGS, argv[1]))
+            if t[1] == S('hasattr') and len(argv) == 2 and argv[0] == 'ARGS' and isinstance(argv[1], str):
+                return argv[1] in table
+            if t[1][0] == 'attr' and t[1][2] == 'get_default' and len(argv) == 1 and isinstance(argv[0], str):
+                a = table.get(argv[0])
+                return a.default if a is not None else None
+            return NOATOM
+        pe = PyEval(atom, call=call)
         try:
             simulate(pe, effs, is_error)
         except Refused as r:
